@@ -204,7 +204,9 @@ def main(argv=None):
 
   known = load_known()
   base_path = os.path.join(VERIF, "baseline", f"{prop}.json")
-  baseline = set(json.load(open(base_path))["labels"]) if os.path.exists(base_path) else set()
+  # site ordinals (@Call2, @BinOp7) are stripped for the comparison: a harmless edit may renumber sites
+  norm = lambda lab: re.sub(r"@[A-Za-z]+\d+", "@", lab)
+  baseline = set(norm(l) for l in json.load(open(base_path))["labels"]) if os.path.exists(base_path) else set()
 
   undecided, violations, known_lines, notes = [], [], [], []
   func_status = {}
@@ -226,7 +228,7 @@ def main(argv=None):
   k_unsat = set()
   for o, r in zip(all_obs, results):
     solver_time += r.get("time", 0.0)
-    labels_now.add(o["label"])
+    labels_now.add(norm(o["label"]))
     is_k = "[K:" in o["label"]
     if r.get("disagreement"):
       disagreements.append(o["label"])
@@ -255,7 +257,7 @@ def main(argv=None):
         known_lines.append(f"KNOWN-FINDING: property={prop} {f['id']} {f['what']}")
         continue
       counted += 1
-      if o["label"] in baseline:
+      if norm(o["label"]) in baseline:
         failed.append((o, r, "regressed"))
       else:
         undecided.append(f"{o['label']}: solver {r['status']} ({r.get('detail', '')})")
